@@ -13,6 +13,7 @@ import (
 	"pgregory.net/rapid"
 
 	"verif/harness/cs"
+	"verif/harness/ev"
 	"verif/harness/gen"
 	"verif/harness/model"
 	"verif/harness/run"
@@ -213,6 +214,17 @@ func runC16(c *c16Case) *sm.Fail {
 		if strings.Join(got, ",") != strings.Join(wantIds, ",") {
 			return bad("findall:"+v.name, "FindAll (%s form %s, index %q) selects %v, reference %v", v.name, v.crit, c.Index, got, wantIds)
 		}
+		// the same literals through the other public entry of the query engine
+		out = run.Exec(h.DB, &cs.Op{Kind: "iterate", Q: &cs.Query{Coll: "A", Crit: v.crit}})
+		if strings.HasPrefix(out.Err, "panic") || out.Err == "hang" {
+			return &sm.Fail{Property: "C20", Clause: "no-panic-no-hang", Detail: fmt.Sprintf("IterateDocs (%s) of %s (index %q): %s", v.name, v.crit, c.Index, out.Err)}
+		}
+		if out.Err != "" {
+			return bad("findall:"+v.name, "IterateDocs (%s form %s) failed: %s", v.name, v.crit, out.Err)
+		}
+		if got := idsOf(out.Docs); strings.Join(got, ",") != strings.Join(wantIds, ",") {
+			return bad("findall:"+v.name, "IterateDocs (%s form %s, index %q) selects %v, reference %v", v.name, v.crit, c.Index, got, wantIds)
+		}
 	}
 	return nil
 }
@@ -231,14 +243,18 @@ func init() {
 }
 
 func TestC16(t *testing.T) {
-	col := collector("C16", ruleC16)
-	check(t, "C16", cases(20000, 400000), 0, func(rt *rapid.T) {
+	check(t, "C16", cases(30000, 1000000), 0, propC16(collector("C16", ruleC16)))
+}
+
+func propC16(col *ev.Collector) func(rt *rapid.T) {
+	return func(rt *rapid.T) {
 		wide := rapid.IntRange(0, 3).Draw(rt, "wide") == 0
 		vcfg := gen.ValCfg{MaxDepth: 1, NonUTF8: true, Wide: wide}
 		dcfg := gen.DocCfg{Val: vcfg, PAbsent: 3}
 		n := rapid.IntRange(3, 6).Draw(rt, "ndocs")
 		docs := make([]cs.Doc, n)
 		var values []interface{}
+		valuesOf := map[string][]interface{}{}
 		for i := range docs {
 			d := gen.Fields(dcfg, int64(i)).Draw(rt, "doc")
 			d["_id"] = gen.Id(i)
@@ -246,10 +262,11 @@ func TestC16(t *testing.T) {
 			for _, f := range gen.LeafFields {
 				if v, ok := model.Lookup(d, f); ok {
 					values = append(values, v)
+					valuesOf[f] = append(valuesOf[f], v)
 				}
 			}
 		}
-		env := gen.CritEnv{Val: vcfg, Values: values, GoKinds: true, MaxDepth: 4}
+		env := gen.CritEnv{Val: vcfg, Values: values, ValuesOf: valuesOf, GoKinds: true, MaxDepth: 4}
 		crit := env.Crit(rt, rapid.IntRange(1, 4).Draw(rt, "depth"))
 		cse := &c16Case{Docs: docs, Crit: crit}
 		if !wide && rapid.Bool().Draw(rt, "indexed") {
@@ -284,5 +301,5 @@ func TestC16(t *testing.T) {
 		col.Case(nTrue > 0 && nTrue < n, hashOf(cse), func() interface{} {
 			return map[string]interface{}{"criteria": crit.String(), "docs": len(docs), "true_on": nTrue, "index": cse.Index}
 		}, cl...)
-	})
+	}
 }
